@@ -1404,6 +1404,14 @@ impl Fsm {
                 self.pseudo_root,
                 self.binding == BindingType::Early,
             );
+            if self.binding == BindingType::Late {
+                // The data of the <scxml> element belong to no state that is entered later:
+                // with an "initial" attribute the wrapper state is never entered at all and
+                // the values would never be assigned. Assign them at load time, once.
+                let root = self.pseudo_root;
+                datamodel.initializeDataModel(self, root, true);
+                self.get_state_by_id_mut(root).isFirstEntry = false;
+            }
         }
         self.executeGlobalScriptElement(datamodel);
 
